@@ -122,8 +122,14 @@ func (sr *StreamReader) read(bs []byte) (int, error) {
 }
 
 func (sr *StreamReader) discardSeek(n int64) error {
-	_, err := sr._seeker.Seek(n, io.SeekCurrent)
-	return err
+	if _, err := sr._seeker.Seek(n, io.SeekCurrent); err != nil {
+		// Not everything with a Seek method can seek: an *os.File may be
+		// a pipe, a socket or a terminal. Read past the bytes instead,
+		// now and from here on.
+		sr.discard = sr._discardStream
+		return sr.discardStream(n)
+	}
+	return nil
 }
 
 func (sr *StreamReader) discardStream(n int64) error {
